@@ -131,6 +131,20 @@ def cycle_program(rng):
 PRIMS16 = ["bool", "int8", "uint8", "int16", "uint16", "int32", "uint32", "varint32", "varuint32", "int64", "uint64", "varint62", "varuint62", "float32", "float64", "string"]
 
 
+def cluster_program(rng):
+    """one element that repeats several different attributes which may be given once: one report per repeat, the same reports in the same order in every run"""
+    forms = {"oneway": ["oneway", "oneway"], "compress": ["compress(Args)", "compress(Return)"], "deprecated": ["deprecated", 'deprecated("again")'],
+             "slicedFormat": ["slicedFormat(Args)", "slicedFormat(Return)"]}
+    kinds = rng.sample(sorted(forms), rng.choice([2, 3, 3, 4, 4]))
+    attrs = [forms[k][0] for k in kinds] + [forms[k][1] for k in rng.sample(kinds, len(kinds))]
+    if rng.random() < 0.5:
+        rng.shuffle(attrs)
+    sep = rng.choice(["", " ", "\n    "])
+    a = "module A\ninterface I {\n    %s\n    op(x: int32)\n}\n" % sep.join("[%s]" % x for x in attrs)
+    b = "module B\nstruct S { a: int32 }\n"
+    return [a, b] if rng.random() < 0.5 else [b, a]
+
+
 def sc_ident(n, written=True):
     """names 100..115 are the keywords of the primitive types (written with a backslash)"""
     if n >= 100:
@@ -374,6 +388,9 @@ def run(ck):
         if r < 0.48:
             progs.append((cycle_program(rng), "cycles", None))
             continue
+        if r < 0.54:
+            progs.append((cluster_program(rng), "clusters", None))
+            continue
         g = slicegen.Gen(random.Random(rng.randrange(1 << 60)), nfiles=rng.choice([2, 3, 3, 4]), depth=2, foreign_attrs=False)
         prog = g.program()
         fam = "valid"
@@ -422,7 +439,7 @@ def run(ck):
             # a file listed twice, the second time anywhere in the list: one warning about it wherever it stands, everything else as before
             twice.append((pi, [(rng.randrange(k), pos) for pos in range(k + 1)]))
     o = dc.run_all(lines, chunk=12)
-    ck.stream("orders", description="multi-file programs (valid; with one injected rule violation; with a deprecated definition used elsewhere; one struct per file forming containment cycles with tails leading in and finite types leading out; files that declare only a module, files with no module at all; several files of one module using deprecated definitions and broken links at module scope and inside definitions with file-level and element-level allow attributes, base names repeated across directories; definitions sharing a scoped name across files; a definition sharing its scoped "
+    ck.stream("orders", description="multi-file programs (valid; with one injected rule violation; with a deprecated definition used elsewhere; one operation that repeats two to four different once-only attributes; one struct per file forming containment cycles with tails leading in and finite types leading out; files that declare only a module, files with no module at all; several files of one module using deprecated definitions and broken links at module scope and inside definitions with file-level and element-level allow attributes, base names repeated across directories; definitions sharing a scoped name across files; a definition sharing its scoped "
               "name with a module declared in another file, members (fields, enumerators, operations, parameters) doing so with doc links that name them, several such collisions and redefinitions at once; re-opened modules; preprocessor symbols defined or undefined in one file and tested in another) run through the real binary with a capturing generator: the same command line four times in fresh processes, every permutation of up to 4 files, "
               "and source/reference re-assignments (also: every file a reference). Compared: stderr and generator request byte for byte between the two identical runs; acceptance (exit status) across all variants and against the rule model's verdict; "
               "for accepted programs every file's decoded request content and the multiset of warnings across all variants.")
